@@ -96,6 +96,11 @@ def build(verbose=False):
         rc, out = sh("%s %s/harness/gen_tables.py" % (PY, VERIF), env=_env())
         gen_ok = rc == 0
         log = out
+        # T-SRC: method bodies translated from the source on every run (an untranslatable target is left undefined,
+        # which breaks SourceChecks.v and with it only the checks whose theorems depend on it)
+        rc, out = sh("%s %s/harness/gen_source.py" % (PY, VERIF), env=_env())
+        gen_ok = gen_ok and rc == 0
+        log += out
         if not os.path.exists(os.path.join(COQ, "Makefile")) or \
                 os.path.getmtime(os.path.join(COQ, "Makefile")) < os.path.getmtime(os.path.join(COQ, "_CoqProject")):
             sh("coq_makefile -f _CoqProject -o Makefile", cwd=COQ)
@@ -211,33 +216,114 @@ class Model:
         return out
 
 
-def coq_eval_crosscheck(reqs_coq, expected):
-    """Re-evaluate a sample of model requests inside Coq (vm_compute) and compare with the
-    answers of the extracted server -- keeps extraction + driver honest.
-    reqs_coq: list of Coq terms (strings) whose vm_compute normal form, printed by Coq, is
-    compared after whitespace normalisation with `expected` (strings in Coq syntax)."""
-    if not reqs_coq:
-        return 0, []
+XCHECK = [
+    # (request to the extracted server, the same call as a Coq term)
+    ("(tree_layer (some 2) 5)", "tree_layer 5 (Some 2) 5"),
+    ("(tree_layer none 4)", "tree_layer 4 None 4"),
+    ("(tree_layer (some 3) 10)", "tree_layer 10 (Some 3) 10"),
+    ("(clean_boundaries (2 5) 7)", "clean_boundaries [2;5] 7"),
+    ("(fewer_ranges (0 2 5))", "fewer_ranges [0;2;5]"),
+    ("(more_nsplits 3 7)", "more_nsplits 3 7"),
+    ("(partitions_divisions (0 5 9 12) (0 2))", "partitions_divisions [0;5;9;12]%Z [0;2]"),
+    ("(partitions_divisions (-3 0 4) (1 0))", "partitions_divisions [-3;0;4]%Z [1;0]"),
+    ("(partitions_divisions (-3 0 4) (0 1))", "partitions_divisions [-3;0;4]%Z [0;1]"),
+    ("(fusion_buckets (0 1 2 3 4) 2)", "fusion_buckets [0;1;2;3;4] 2"),
+    ("(fused_divisions (0 5 9 12 20) ((0 1) (2 3)))", "fused_divisions [0;5;9;12;20]%Z [[0;1];[2;3]]"),
+    ("(fewer_divisions (0 5 9 12) (0 2 3))", "fewer_divisions [0;5;9;12]%Z [0;2;3]"),
+    ("(head_divisions (0 5 9) 2)", "head_divisions [0;5;9]%Z 2"),
+    ("(bhead_divisions (0 5 9) 1)", "bhead_divisions [0;5;9]%Z 1"),
+    ("(tail_divisions (0 5 9))", "tail_divisions [0;5;9]%Z"),
+    ("(concat_divisions ((0 5) (6 9)))", "concat_divisions [[0;5];[6;9]]%Z"),
+    ("(concat_divisions ((0 5) (5 9)))", "concat_divisions [[0;5];[5;9]]%Z"),
+    ("(truthfulb (0 5 9) ((0 4) (5 9)))", "truthfulb [0;5;9]%Z [[0;4];[5;9]]%Z"),
+    ("(truthfulb (0 5 9) ((0 5) (5 9)))", "truthfulb [0;5;9]%Z [[0;5];[5;9]]%Z"),
+    ("(stats_divisions ((5 9) (0 4) (10 12)))", "stats_divisions [(5,9);(0,4);(10,12)]%Z"),
+    ("(stats_divisions ((5 9) (0 5)))", "stats_divisions [(5,9);(0,5)]%Z"),
+    ("(presorted_divisions ((0 2) (3 3) (4 8)))", "presorted_divisions [(0,2);(3,3);(4,8)]%Z"),
+    ("(presorted_divisions ((0 3) (3 5)))", "presorted_divisions [(0,3);(3,5)]%Z"),
+]
+
+
+def _coq_to_sx(text):
+    """Canonical S-expression of a printed Coq value built from numbers, bool, option, lists and tuples."""
+    toks = re.findall(r"\[|\]|\(|\)|;|,|-?\d+|[A-Za-z_][A-Za-z_0-9']*", re.sub(r"%[A-Za-z_]+", "", text))
+    pos = 0
+
+    def atom():
+        nonlocal pos
+        t = toks[pos]
+        pos += 1
+        if t == "[":
+            items = []
+            while toks[pos] != "]":
+                items.append(term())
+                if toks[pos] == ";":
+                    pos += 1
+            pos += 1
+            return items
+        if t == "(":
+            items = [term()]
+            while toks[pos] == ",":
+                pos += 1
+                items.append(term())
+            assert toks[pos] == ")"
+            pos += 1
+            if len(items) == 1:
+                return items[0]
+            # Coq prints nested pairs flat: (a, b, c) = ((a, b), c)
+            out = items[0]
+            for x in items[1:]:
+                out = [out, x]
+            return out
+        if re.match(r"-?\d+$", t):
+            return int(t)
+        return {"None": "none", "true": "true", "false": "false"}.get(t, t)
+
+    def term():
+        nonlocal pos
+        head = atom()
+        if head == "Some":
+            return ["some", atom()]
+        return head
+
+    v = term()
+    if pos != len(toks):
+        raise ValueError("trailing tokens in %r" % text)
+    return v
+
+
+def extraction_crosscheck():
+    """Evaluate XCHECK both with the extracted OCaml server and inside Coq (vm_compute) and compare: keeps extraction,
+    ocaml/driver.ml and the S-expression printers honest.  Returns (number compared, list of differences)."""
     os.makedirs(os.path.join(BUILD, "cases"), exist_ok=True)
-    path = os.path.join(BUILD, "cases", "cases_%d.v" % os.getpid())
+    path = os.path.join(BUILD, "cases", "xcheck_%d.v" % os.getpid())
     with open(path, "w") as f:
-        f.write("From DX Require Import All.\nSet Printing Width 1000000.\nSet Printing Depth 100000.\n")
-        for t in reqs_coq:
+        f.write("From DX Require Import Base TreeReduce Repart Divisions MinMax.\nSet Printing Width 1000000.\nSet Printing Depth 100000.\n")
+        for _, t in XCHECK:
             f.write("Eval vm_compute in (%s).\n" % t)
     rc, out = sh("timeout 600 coqc -Q %s DX %s" % (COQ, path), cwd=os.path.dirname(path))
-    got = [re.sub(r"\s+", " ", m.strip()) for m in re.findall(r"^\s*= (.*?)\n\s*: ", out, flags=re.M | re.S)]
-    bad = []
-    for i, (g, e) in enumerate(zip(got, expected)):
-        if g != re.sub(r"\s+", " ", e.strip()):
-            bad.append((reqs_coq[i], g, e))
-    if len(got) != len(expected):
-        bad.append(("count", str(len(got)), str(len(expected)) + " rc=%d %s" % (rc, out[-300:])))
     for ext in (".v", ".vo", ".glob", ".vok", ".vos"):
         try:
             os.remove(path[:-2] + ext)
         except OSError:
             pass
-    return len(got), bad
+    aux = os.path.join(os.path.dirname(path), "." + os.path.basename(path)[:-2] + ".aux")
+    if os.path.exists(aux):
+        os.remove(aux)
+    got = re.findall(r"^\s*= (.*?)\n\s*: ", out, flags=re.M | re.S)
+    if rc != 0 or len(got) != len(XCHECK):
+        return 0, [("coqc", "rc=%d, %d values for %d terms: %s" % (rc, len(got), len(XCHECK), out[-300:]))]
+    ans = Model().batch([r for r, _ in XCHECK])
+    bad = []
+    for (req, term), g, a in zip(XCHECK, got, ans):
+        try:
+            cg = sx(_coq_to_sx(g))
+        except Exception as ex:
+            cg = "unparsable Coq output %r (%s)" % (g[:80], ex)
+        ca = sx(parse_sx(a)) if not a.startswith("(error") else a
+        if cg != ca:
+            bad.append((req, "Coq: " + cg, "server: " + ca))
+    return len(XCHECK), bad
 
 
 # ----------------------------------------------------------------------------- runs
@@ -305,6 +391,14 @@ class Run:
         if not ps["ok"]:
             self.broken_tie("proof:" + prop_file, {"rc": ps["rc"], "missing_vo": ps["missing_vo"],
                                                   "forbidden": ps["forbidden"], "out": ps["out"][-1500:]})
+        # the extracted server against the same calls evaluated inside Coq
+        try:
+            n, bad = extraction_crosscheck()
+        except Exception as ex:
+            n, bad = 0, [("exception", type(ex).__name__ + ": " + str(ex)[:300])]
+        self.xcheck = {"terms_compared_with_vm_compute": n, "differences": len(bad)}
+        if bad:
+            self.broken_tie("extraction cross-check (OCaml server vs vm_compute)", {"differences": [list(b) for b in bad[:5]]})
         return ps
 
     # -- finish
@@ -340,6 +434,7 @@ class Run:
             "rule": self.rule,
             "samples": self.samples,
             "correspondence": self.sections,
+            "extraction_cross_check": getattr(self, "xcheck", None),
             "broken": self.broken[:10],
             "known_findings_reproduced": sorted(self.known_hits),
         }
@@ -369,8 +464,8 @@ class Run:
 
 COMMON_TRUSTED = [
     "Coq 8.16.1 kernel (coqc), vm_compute for reflective/bounded lemmas; no native_compute",
-    "extraction to OCaml with ExtrOcamlBasic only (its Extract Inductive for bool,list,option,prod,unit,sumbool) + ocaml/driver.ml glue; a sample is re-evaluated inside Coq each run",
-    "the Gallina model is hand-written; it is tied to /repo only by the correspondence runs reported in this file",
+    "extraction to OCaml with ExtrOcamlBasic only (its Extract Inductive for bool,list,option,prod,unit,sumbool) + ocaml/driver.ml glue; 23 fixed calls are evaluated by the server and by vm_compute inside Coq on every run and compared (coverage.extraction_cross_check)",
+    "the Gallina model is hand-written and tied to /repo by the correspondence runs reported in this file, except: the class table (harness/gen_tables.py) and the bodies of 10 _divisions-type methods (harness/gen_source.py, a ~300-line Python-AST -> Gallina translator over coq/PySeq.v, fail-closed) are regenerated from the source on every run; the translators and PySeq.v's reading of Python indexing/slicing are trusted",
 ]
 
 
